@@ -294,9 +294,9 @@ P("p-rename-locals-serialize", ["C01", "C02", "C04"], [(BASE, "        for (key,
    "        for (k, v) in self.items():\n            if v is None:\n                p = MSDParameter((k,))\n            elif k in BaseSimfile.MULTI_VALUE_PROPERTIES:\n                p = MSDParameter((k, *v.split(\":\")))\n            else:\n                p = MSDParameter((k, v))\n            file.write(f\"{p}\\n\")")])
 P("p-none-test-reordered", ["C01", "C04"], [(BASE, "            if value is None:\n                param = MSDParameter((key,))\n            elif key in BaseSimfile.MULTI_VALUE_PROPERTIES:\n                param = MSDParameter((key, *value.split(\":\")))\n            else:\n                param = MSDParameter((key, value))",
    "            if value is not None and key in BaseSimfile.MULTI_VALUE_PROPERTIES:\n                param = MSDParameter((key, *value.split(\":\")))\n            elif value is not None:\n                param = MSDParameter((key, value))\n            else:\n                param = MSDParameter((key,))")])
-P("p-not-in-table", ["C01", "C03", "C04"], [(SM, "            elif key in BaseSimfile.MULTI_VALUE_PROPERTIES:\n                self[key] = \":\".join(param.components[1:])\n            else:\n                self[key] = param.value", "            elif key not in BaseSimfile.MULTI_VALUE_PROPERTIES:\n                self[key] = param.value\n            else:\n                self[key] = \":\".join(param.components[1:])")])
+P("p-not-in-table", ["C01", "C03", "C04"], [(SM, "            elif key in BaseSimfile.MULTI_VALUE_PROPERTIES and param.value is not None:\n                self[key] = \":\".join(param.components[1:])\n            else:\n                self[key] = param.value", "            elif key not in BaseSimfile.MULTI_VALUE_PROPERTIES or param.value is None:\n                self[key] = param.value\n            else:\n                self[key] = \":\".join(param.components[1:])")])
 P("p-smchart-param-local", ["C01", "C04", "C18"], [(SM, "        file.write(str(param))", "        text = str(param)\n        file.write(text)")])
-P("p-key-inline-upper", ["C03", "C04"], [(SSC, "            key = param.key.upper()\n            if key in BaseSimfile.MULTI_VALUE_PROPERTIES:\n                self[key] = \":\".join(param.components[1:])\n            else:\n                self[key] = param.value\n            if key in (\"NOTES\", \"NOTES2\"):", "            upper_key = param.key.upper()\n            if upper_key in BaseSimfile.MULTI_VALUE_PROPERTIES:\n                self[upper_key] = \":\".join(param.components[1:])\n            else:\n                self[upper_key] = param.value\n            if upper_key in (\"NOTES\", \"NOTES2\"):")])
+P("p-key-inline-upper", ["C03", "C04"], [(SSC, "            key = param.key.upper()\n            if key in BaseSimfile.MULTI_VALUE_PROPERTIES and param.value is not None:\n                self[key] = \":\".join(param.components[1:])\n            else:\n                self[key] = param.value\n            if key in (\"NOTES\", \"NOTES2\"):", "            upper_key = param.key.upper()\n            if upper_key in BaseSimfile.MULTI_VALUE_PROPERTIES and param.value is not None:\n                self[upper_key] = \":\".join(param.components[1:])\n            else:\n                self[upper_key] = param.value\n            if upper_key in (\"NOTES\", \"NOTES2\"):")])
 P("p-isinstance-tuple", ["C03"], [(INIT, "    if isinstance(file, TextIOWrapper) or isinstance(file, TextIO):\n        if type(file.name) is str:", "    if isinstance(file, (TextIOWrapper, TextIO)):\n        if type(file.name) is str:"), (INIT, "    if isinstance(file, TextIOWrapper) or isinstance(file, TextIO):\n        file.seek(0)", "    if isinstance(file, (TextIOWrapper, TextIO)):\n        file.seek(0)")])
 P("p-load-positional-strict", ["C03", "C05"], [(INIT, "                return (load(file, strict=strict), encoding)", "                return (load(file, strict), encoding)")])
 P("p-mutate-renames", ["C05", "C06"], [(INIT, "        output_data = str(simfile)\n        output_data.encode(encoding, kwargs.get(\"errors\") or \"strict\")", "        text = str(simfile)\n        text.encode(encoding, kwargs.get(\"errors\") or \"strict\")"), (INIT, "            writer.write(output_data)", "            writer.write(text)")])
@@ -377,3 +377,6 @@ B("c09-mine-does-not-interrupt", "C09", GROUP, "        if not maybe_tail or may
 B("c09-join-extra-condition", "C09", GROUP, "    if join_heads_to_tails:\n        notes_maybe_with_tails = join_heads_to_tails_(notes)", "    if join_heads_to_tails and NoteType.TAIL in include_note_types:\n        notes_maybe_with_tails = join_heads_to_tails_(notes)", "exactly when join_heads_to_tails")
 B("c07-keysound-list-hoisted", ["C07", "C08"], NOTES, "        for l, line in enumerate(lines):\n            line = line.strip()\n            keysound_indices: List[Optional[int]] = [None] * self._columns\n", "        keysound_indices: List[Optional[int]] = [None] * self._columns\n        for l, line in enumerate(lines):\n            line = line.strip()\n", "afresh")
 B("c11-coalesce-stale-cache", ["C11", "C13"], ENGINE, "                last_warp_end: Beat = warp_ends[-1].beat\n", "                last_warp_end: Beat = warp_ends[0].beat\n", "boundary")
+
+B("c03-keyonly-multi-joined", ["C01", "C03", "C04"], SM, "            elif key in BaseSimfile.MULTI_VALUE_PROPERTIES and param.value is not None:", "            elif key in BaseSimfile.MULTI_VALUE_PROPERTIES:", "key-only multi-value")
+P("p-keyonly-by-length", ["C01", "C03", "C04"], [(SM, "            elif key in BaseSimfile.MULTI_VALUE_PROPERTIES and param.value is not None:", "            elif key in BaseSimfile.MULTI_VALUE_PROPERTIES and len(param.components) > 1:")])
